@@ -349,3 +349,53 @@ theorem takeWhile_dlname (v rest : Str) (hv : ∀ c ∈ v, isDlnameChar c = true
   · rw [List.dropWhile_append_of_pos hv]; simp [List.dropWhile, hq]
 
 end GIVerif.Shlibs
+
+namespace GIVerif.Shlibs
+open GIVerif.Py
+
+/-! ### words produced by `str.split()` -/
+
+theorem splitOnRuns_spec (sep : Char → Bool) (s acc : Str) (hacc : ∀ c ∈ acc, sep c = false) :
+    ∀ w ∈ splitOnRuns sep s acc, w ≠ [] ∧ ∀ c ∈ w, sep c = false := by
+  induction s generalizing acc with
+  | nil =>
+    cases acc with
+    | nil => simp [splitOnRuns]
+    | cons a as =>
+      intro w hw
+      simp only [splitOnRuns, List.mem_singleton] at hw
+      subst hw
+      refine ⟨by simp, ?_⟩
+      intro c hc
+      have hc' : c ∈ as ∨ c = a := by simpa using hc
+      exact hacc c (by rcases hc' with h | h <;> simp [h])
+  | cons c cs ih =>
+    intro w hw
+    simp only [splitOnRuns] at hw
+    split at hw
+    · split at hw
+      · exact ih [] (by simp) w hw
+      · rename_i hne
+        rcases List.mem_cons.mp hw with rfl | hw
+        · refine ⟨?_, ?_⟩
+          · intro h; apply hne; simpa using h
+          · intro d hd; exact hacc d (by simpa using hd)
+        · exact ih [] (by simp) w hw
+    · rename_i hsep
+      refine ih (c :: acc) ?_ w hw
+      intro d hd
+      rcases List.mem_cons.mp hd with rfl | hd
+      · simpa using hsep
+      · exact hacc d hd
+
+/-- every word handed to the matcher is non-empty and free of whitespace (hence of line breaks) -/
+theorem splitWs_spec (s : Str) : ∀ w ∈ splitWs s, w ≠ [] ∧ ∀ c ∈ w, isSpace c = false :=
+  splitOnRuns_spec isSpace s [] (by simp)
+
+theorem listingWords_spec (out : Str) : ∀ w ∈ listingWords out, w ≠ [] ∧ ∀ c ∈ w, isSpace c = false := by
+  intro w hw
+  unfold listingWords at hw
+  obtain ⟨l, _, hl⟩ := List.mem_flatMap.mp hw
+  exact splitWs_spec l w hl
+
+end GIVerif.Shlibs
